@@ -693,13 +693,14 @@ fn case_strategy(kind: Kind, db: bool, max_ops: usize) -> impl Strategy<Value = 
         k if k.is_removal() => 1..=1,
         _ => 1..=3,
     };
+    // the mutation list comes first so that proptest shrinks it first
     (
+        proptest::collection::vec(mut_strategy(), muts),
         history_strategy(Mix::Content, max_ops),
         proptest::collection::vec((any::<u16>(), spec_strategy()), 2..5),
         any::<bool>(),
-        proptest::collection::vec(mut_strategy(), muts),
     )
-        .prop_map(move |(mut history, extra, wide, muts)| {
+        .prop_map(move |(muts, mut history, extra, wide)| {
             history.cfg.db = db;
             Case { kind, history, extra, wide, muts }
         })
@@ -713,17 +714,22 @@ fn file_case_strategy(db: bool) -> impl Strategy<Value = FileCase> {
 }
 
 /// real evaluations spent on shrinking one failing sub-check (cases cost ~0.5-1 s)
-const SHRINK_BUDGET: u32 = 30;
+const SHRINK_BUDGET: u32 = 12;
 
 fn run(shard: &Shard, rep: &mut Report) {
     let t = shard.tier;
     let max_ops = 12;
+    let t0 = std::time::Instant::now();
+    let dbg = std::env::var("VERIF_TIMING").is_ok();
     for db in [false, true] {
         let be = if db { "sqlite" } else { "fs" };
         drive(shard, rep, &format!("sound/{be}"), shard.share(t.pick(40, 700)), case_strategy(Kind::Sound, db, max_ops), with_shrink_budget(shard, SHRINK_BUDGET, |c| check_case(c)));
         let kinds: &[Kind] = if db { &DB_KINDS } else { &FS_KINDS };
         for k in kinds {
             drive(shard, rep, &format!("{be}/{}", k.name()), shard.share(t.pick(16, 340)), case_strategy(*k, db, max_ops), with_shrink_budget(shard, SHRINK_BUDGET, |c| check_case(c)));
+            if dbg {
+                eprintln!("shard {} {be}/{} done at {:.1}s", shard.index, k.name(), t0.elapsed().as_secs_f64());
+            }
         }
         drive(shard, rep, &format!("files/{be}"), shard.share(t.pick(8, 100)), file_case_strategy(db), with_shrink_budget(shard, 8, |c| check_file_case(c)));
     }
